@@ -169,6 +169,14 @@ def build_cases(rng, sizes, full: bool) -> typing.Tuple[Tree, typing.List[Case]]
             t.file(path, data)
             cases.append(Case(path, data, mimeref.mime_for_ext(ext), data, ("content:" + cc, "name:" + ncls, "ext:" + ext)))
             i += 1
+    # names that look like URLs to a parser that is handed the bare name (scheme prefixes, fragment marks)
+    for j, (nm, ext) in enumerate([("data:,annual-report", ".pdf"), ("data:text,figures", ".gif"), ("http:page", ".png"),
+                                   ("file:x", ".pdf"), ("mailto:someone", ".gif"), ("a#frag", ".pdf"), ("URL:gopher", ".png"),
+                                   ("C:drive", ".gif"), ("x;type=a", ".pdf")]):
+        data = trees.gen_content(rng, 100 + j, "binary")
+        path = rng.choice([b"", b"docs/"]) + (nm + ext).encode()
+        t.file(path, data)
+        cases.append(Case(path, data, mimeref.mime_for_ext(ext), data, ("content:binary", "name:urlish", "ext:" + ext)))
     # HTML documents (title handler) and encoded files
     for j, title in enumerate(["T", None, "a <b> & c"]):
         data = trees.html_doc(title) + trees.gen_content(rng, 5000 * j, "text")
@@ -190,12 +198,17 @@ def build_cases(rng, sizes, full: bool) -> typing.Tuple[Tree, typing.List[Case]]
 
 def run(chk: Check, sizes, nreal: int) -> None:
     with Scratch("c04") as sc:
-        for hl_name, hl in (("default", None), ("full", driver.HANDLERS_FULL)):
+        # log method: the request line (whatever bytes the name holds) is logged before anything is written
+        plan = [("default", None, "file"), ("full", driver.HANDLERS_FULL, "syslog")]
+        if chk.tier == "thorough":
+            plan += [("default", None, "syslog"), ("full", driver.HANDLERS_FULL, "file"), ("default", None, "none")]
+        for hl_name, hl, logmethod in plan:
             rng = chk.subrng(hl_name)
             t, cases = build_cases(rng, sizes, full=hl is not None)
-            root = sc.sub("root-" + hl_name)
+            root = sc.sub("root-%s-%s" % (hl_name, logmethod))
             t.materialize(root)
-            site = driver.Site(root, handlers=hl, tls_context=True)
+            site = driver.Site(root, handlers=hl, tls_context=True, overrides={("logger", "logmethod"): logmethod})
+            chk.count("sites_logging_to_" + logmethod)
             try:
                 for c in cases:
                     for view in reqs.DOC_VIEWS:
